@@ -13,6 +13,9 @@ pub enum Mode {
     Window,
     /// stamps spread over up to 6 h: every replica applies, per origin, a gap-free prefix, in stamp order
     Prefix,
+    /// stamps hours apart on an exact 1 h grid, arbitrary subsets in arbitrary order: OUTSIDE the
+    /// precondition of C03 / C05's repair clause, used only for claims made about any replica
+    Gaps,
 }
 
 #[derive(Debug, Clone)]
@@ -52,6 +55,27 @@ pub fn gen_pool_long(src: &mut Src, max_ops: usize) -> Pool {
     Pool { mode: Mode::Prefix, ops, nodes }
 }
 
+/// Pool for mode `Gaps`: times on a grid whose steps include exactly one forgiveness period, equal
+/// counters, so that a stamp can sit exactly on a replica's purge cut-off.
+pub fn gen_pool_gaps(src: &mut Src, max_ops: usize) -> Pool {
+    let n = 2 + src.below(max_ops.saturating_sub(1));
+    let n_keys = 1 + src.below(4) as u64;
+    let nodes: Vec<u8> = if src.chance(1, 2) { vec![1] } else { vec![1, 2] };
+    let base = *src.pick(&[100_000u64, 7_200]);
+    let mut ops = vec![];
+    let mut used = std::collections::BTreeSet::new();
+    for _ in 0..n {
+        let secs = base + *src.pick(&[0u64, 3_599, 3_600, 3_601, 7_200, 10_800]);
+        let mut stamp = crate::model::Stamp { secs, frac: *src.pick(&[0u8, 0, 1]), counter: *src.pick(&[0u16, 0, 1]), node: *src.pick(&nodes) };
+        while !used.insert(stamp) {
+            stamp.counter += 1;
+        }
+        ops.push(SetOp { key: 1 + src.below64(n_keys), stamp, delete: src.chance(2, 5) });
+    }
+    ops.sort_by_key(|o| o.stamp);
+    Pool { mode: Mode::Gaps, ops, nodes }
+}
+
 pub fn gen_pool(src: &mut Src, max_ops: usize) -> Pool {
     if src.chance(1, 4) {
         return gen_pool_long(src, max_ops);
@@ -67,6 +91,7 @@ pub fn gen_pool(src: &mut Src, max_ops: usize) -> Pool {
         _ => vec![1, 2],
     };
     let window = match mode {
+        Mode::Gaps => unreachable!(),
         Mode::Window => 3_000,
         Mode::Prefix => *src.pick(&[21_600u64, 3_700, 8_000]),
     };
@@ -86,7 +111,7 @@ pub fn gen_plan(src: &mut Src, pool: &Pool, sources: usize) -> ReplicaPlan {
     let n = pool.ops.len();
     let mut steps = vec![];
     match pool.mode {
-        Mode::Window => {
+        Mode::Window | Mode::Gaps => {
             let mut chosen: Vec<usize> = (0..n).filter(|_| src.chance(2, 3)).collect();
             let perm = src.permutation(chosen.len());
             chosen = perm.into_iter().map(|i| chosen[i]).collect();
